@@ -201,17 +201,18 @@ def edit1(seed: int, pos: int, k: int, mode: int) -> bool:
     return _ok(" ".join(t))
 
 
-def edit2(seed: int, p1: int, k1: int, p2: int, k2: int) -> bool:
+def edit2(seed: int, p1: int, k1: int, d: int, k2: int) -> bool:
     """
-    pre: 0 <= seed < 20 and 0 <= p1 < 8 and 0 <= p2 < 8 and 0 <= k1 < 30 and 0 <= k2 < 30 and seed == __SEED__ and p1 == __SHARD__
+    pre: 0 <= seed < 20 and 0 <= p1 < 8 and 1 <= d <= 2 and 0 <= k1 < 20 and 0 <= k2 < 20 and seed == __SEED__ and p1 == __SHARD__
     post: _
     """
-    seed, p1, k1, p2, k2 = _pick(seed, 0, 19), _pick(p1, 0, 7), _pick(k1, 0, 29), _pick(p2, 0, 7), _pick(k2, 0, 29)
+    seed, p1, k1, d, k2 = _pick(seed, 0, 19), _pick(p1, 0, 7), _pick(k1, 0, 19), _pick(d, 1, 2), _pick(k2, 0, 19)
     t = SEEDS[seed].split(" ")
-    if p1 >= len(t) or p2 >= len(t) or p2 <= p1:
+    p2 = p1 + d
+    if p1 >= len(t) or p2 >= len(t):
         return True
-    t[p1] = SIGMA_ERR[k1]
-    t[p2] = SIGMA_ERR[k2]
+    t[p1] = CUT20[k1]
+    t[p2] = CUT20[k2]
     return _ok(" ".join(t))
 
 
@@ -242,10 +243,10 @@ def explain(fname, call):
             s = " ".join(t)
             return f"{classify(s)}: formula {s!r}"
         if fname == "edit2":
-            seed, p1, k1, p2, k2 = a
+            seed, p1, k1, d, k2 = a
             t = SEEDS[seed].split(" ")
-            t[p1] = SIGMA_ERR[k1]
-            t[p2] = SIGMA_ERR[k2]
+            t[p1] = CUT20[k1]
+            t[p1 + d] = CUT20[k2]
             s = " ".join(t)
             return f"{classify(s)}: formula {s!r}"
     except Exception as e:
